@@ -171,6 +171,9 @@ def run_exec(c, pid, builds, n_per_build, maxbody, props_module):
             # the monitor only suspects a `block_on`-YIELD panic from the shape of the trace; the panic message decides
             if "panic:block-on-yield-without-waitable-set" in fails and "Option::unwrap()" not in pmsg:
                 fails = ["panic" if f == "panic:block-on-yield-without-waitable-set" else f for f in fails]
+            if "panic:wake-after-cancelled-sleep" in fails and not ("Cannot support cross-component-model-task wakeup" in pmsg
+                                                                     or "inter_task_wakeup.rs" in pmsg):
+                fails = ["panic" if f == "panic:wake-after-cancelled-sleep" else f for f in fails]
             # scripts outside the properties' domain
             if "deadlock" in toks:
                 skipped["block_on script deadlocks (nobody left to wake the task): host escape hatch"] += 1
